@@ -2522,7 +2522,7 @@ func _return(n *node) {
 }
 
 func arrayLit(n *node) {
-	value := valueGenerator(n, n.findex)
+	store := litStore(n)
 	next := getExec(n.tnext)
 	child := n.child
 	if n.nleft == 1 {
@@ -2560,13 +2560,30 @@ func arrayLit(n *node) {
 		for i, v := range values {
 			a.Index(index[i]).Set(v(f))
 		}
-		value(f).Set(a)
+		store(f, a)
 		return next
 	}
 }
 
-func mapLit(n *node) {
+// litStore returns a function storing the value of composite literal n at its
+// destination. When the literal directly initializes a variable defined by :=,
+// the variable gets a new storage at each execution, so that a closure which
+// captured the variable of a previous loop iteration keeps it.
+func litStore(n *node) func(*frame, reflect.Value) {
 	value := valueGenerator(n, n.findex)
+	if a := n.anc; a == nil || a.kind != defineStmt || a.nleft != 1 || a.child[0].findex != n.findex {
+		return func(f *frame, v reflect.Value) { value(f).Set(v) }
+	}
+	i, l, typ := n.findex, n.level, n.typ.frameType()
+	return func(f *frame, v reflect.Value) {
+		nv := reflect.New(typ).Elem()
+		nv.Set(v)
+		getFrame(f, l).data[i] = nv
+	}
+}
+
+func mapLit(n *node) {
+	store := litStore(n)
 	next := getExec(n.tnext)
 	child := n.child
 	if n.nleft == 1 {
@@ -2585,7 +2602,7 @@ func mapLit(n *node) {
 		for i, k := range keys {
 			m.SetMapIndex(k(f), values[i](f))
 		}
-		value(f).Set(m)
+		store(f, m)
 		return next
 	}
 }
